@@ -201,10 +201,16 @@ func (m *M) corpusScalar(prop string) {
 				if len(as) < 1 || as[0].Cmp(bigN) >= 0 {
 					continue
 				}
-				m.SSetInt(0, stored(as[0]))
-				m.SSetInt(1, mulmod(as[0], as[0], bigN)) // some other value, without drawing from the generator's stream
+				// against its neighbours: a conversion that is slightly off flips exactly these comparisons
+				v := stored(as[0])
+				m.SSetInt(0, v)
+				m.SSetInt(1, new(big.Int).Mod(new(big.Int).Sub(v, one), bigN))
 				m.SLessOrEqual(0, 1)
 				m.SLessOrEqual(1, 0)
+				m.SSetInt(1, new(big.Int).Mod(new(big.Int).Add(v, one), bigN))
+				m.SLessOrEqual(0, 1)
+				m.SLessOrEqual(1, 0)
+				m.SLessOrEqual(0, 0)
 			default:
 				continue
 			}
